@@ -143,6 +143,18 @@ theorem strIncr_wf (h : WF db) (k : Bytes) (d now : Int) : WF (strIncr db k d no
     have := strUpdateTx_wf h k (itoa (wrap64 (n + d))) now
     split <;> (rename_i he; rw [he] at this; exact this)
 
+theorem strIncrFloat_wf (h : WF db) (k : Bytes) (d : Dyadic) (now : Int) : WF (strIncrFloat db k d now).db := by
+  unfold strIncrFloat
+  simp only
+  split
+  · exact h
+  · exact h
+  · split
+    · split <;> exact h
+    · rename_i txt _
+      have := strUpdateTx_wf h k txt now
+      split <;> (rename_i he; rw [he] at this; exact this)
+
 theorem strSetMany_wf (items : List (Bytes × Bytes)) (now : Int) :
     ∀ {db : DB}, WF db → WF (strSetMany db items now).db := by
   induction items with
